@@ -56,6 +56,13 @@ class MIADistinguisherMixin(_PartitionnedDistinguisherBaseMixin):
                 x = traces[trace_idx, sample_idx]
                 if x >= min_edge and x < max_edge:
                     bin_idx = int((x - min_edge) * norm)
+                    # The float estimate can be off near an edge: settle it against the edges themselves.
+                    if bin_idx > nbins - 1:
+                        bin_idx = nbins - 1
+                    while bin_idx > 0 and x < self_bin_edges[bin_idx]:
+                        bin_idx -= 1
+                    while bin_idx < nbins - 1 and x >= self_bin_edges[bin_idx + 1]:
+                        bin_idx += 1
                 elif x == max_edge:
                     bin_idx = nbins - 1
                 else:
